@@ -25,7 +25,7 @@ RULE = ('Generated budgets (1-3 sources with independent settings + a plain prob
         'ranking, a transform or a supplemental query.')
 ASSUMPTIONS = ['sub-check (b) uses rules that depend only on description and amount - the only things `explain` lets the user state',
                'probe descriptions carry a unique token so that explain reaches its description path rather than a merchant/transaction search']
-REQUIRED_CLASSES = ['explain_merchant', 'explain_description_matched', 'explain_description_unknown', 'discover_listing', 'tagonly_predecessor', 'variable_or_let',
+REQUIRED_CLASSES = ['explain_text', 'explain_description_text', 'explain_merchant', 'explain_description_matched', 'explain_description_unknown', 'discover_listing', 'tagonly_predecessor', 'variable_or_let',
                     'most_specific', 'transform', 'supplemental_query', 'csv_rules']
 
 UNIQ = ['ZZQX', 'QQPROBE', 'XYZZY7']
@@ -153,6 +153,22 @@ def up_view(bd, c):
     return jd, txns
 
 
+def text_agrees(argv, bd, category, subcategory, unknown_desc, c, ctx, what):
+    """The text and markdown renderings of the same explain call report the same classification (and do not crash)."""
+    for fmt in ([], ['--format', 'markdown']):
+        r = cli.run(['explain'] + fmt + argv, cwd=bd.root)
+        out = r.out + r.err
+        if 'Traceback' in out or r.code != 0:
+            raise Violation(f'`tally explain {" ".join(fmt + argv[:-1])}` failed (exit {r.code}) where the JSON format succeeds:\n{out[-900:]}{ctx}', c, 'explain-text-crash')
+        if unknown_desc:
+            ok = 'Unknown merchant' in out
+        else:
+            ok = f'{category} > {subcategory}' in out or (f'category: {category}' in out and f'subcategory: {subcategory}' in out)
+        if not ok:
+            raise Violation(f'{what}: the {"markdown" if fmt else "text"} output does not report {category!r} > {subcategory!r} (unknown={unknown_desc}):\n{out[:900]}{ctx}', c,
+                            'explain-text')
+
+
 def check(c, stats: Stats):
     b = c['b']
     classes = set()
@@ -178,6 +194,9 @@ def check(c, stats: Stats):
             for k in ('name', 'category', 'subcategory', 'tags', 'total', 'count', 'pattern', 'raw_descriptions'):
                 if em.get(k) != um.get(k):
                     raise Violation(f'explain says {k} = {em.get(k)!r} for merchant {name!r}, `up` says {um.get(k)!r}{ctx}', c, 'explain-merchant:' + k)
+            if 'explain_text' not in classes and '\n' not in name:
+                text_agrees([name, bd.config], bd, um.get('category'), um.get('subcategory'), False, c, ctx, f'explain {name!r}')
+                classes.add('explain_text')
             classes.add('explain_merchant')
         # ---------- (c) discover lists exactly the Unknown transactions
         unknown = [t for t in txns if t['category'] == 'Unknown']
@@ -235,6 +254,9 @@ def check(c, stats: Stats):
                 if up_t['pattern'] and (tr.get('matched_rule') or {}).get('pattern') != up_t['pattern']:
                     raise Violation(f'explain {d!r} --amount {a} names rule {(tr.get("matched_rule") or {}).get("pattern")!r}, `up` matched {up_t["pattern"]!r}{ctx}', c,
                                     'explain-rule')
+                if 'explain_description_text' not in classes:
+                    text_agrees(['--amount', repr(a), d, bd.config], bd, up_t['category'], up_t['subcategory'], False, c, ctx, f'explain {d!r} --amount {a}')
+                    classes.add('explain_description_text')
                 classes.add('explain_description_matched')
         # ---------- classes
         if b['rules_kind'] == 'csv':
